@@ -211,6 +211,36 @@ def _tup_tails(e, depth=0):
     return []
 
 
+def _relative_base(fl, e):
+    """for an offset bound by `for (offset, _) in S.match_indices(..)` (or find / char_indices): the hid of the range R when S
+    is `content[R]`, "other" when S is anything else (the token's text, a trimmed copy ..), None when `e` is no such offset"""
+    e = peel_clone(e)
+    if not (isinstance(e, dict) and e.get("k") == "Path" and e.get("res") == "Local"):
+        return None
+    o = fl.origin.get(e["hid"])
+    if not o or o.get("src") is None or o["kind"] not in ("for", "closure", "let"):
+        return None
+    src = peel(o["src"])
+    call = None
+    for c in nodes(src, "MethodCall"):
+        if c["m"] in ("match_indices", "rmatch_indices", "char_indices", "find", "rfind", "bytes", "split"):
+            call = c
+    if call is None or call["m"] in ("bytes", "split"):
+        return None
+    if call["m"] == "char_indices" and "enumerate" in pp(src) and o["path"] == (("tuple", 0),):
+        return None      # the enumerate counter, not an offset
+    s_ = peel_clone(call["recv"])
+    if s_.get("k") == "Index":
+        r = peel_clone(s_["i"])
+        base = peel_clone(s_["e"])
+        if r.get("k") == "Path" and r.get("res") == "Local" and "Range<usize>" in (r.get("ty") or "") and base.get("name") == "content":
+            return r["hid"]
+        return "other"
+    if s_.get("k") == "Path" and s_.get("name") == "content":
+        return None      # offsets into the whole source are absolute
+    return "other"
+
+
 def unit_rules(F, rep, rule="UNIT"):
     """byte offsets index char_at_byte only; columns are char - char"""
     fn = F.fn(FN)
@@ -232,6 +262,16 @@ def unit_rules(F, rep, rule="UNIT"):
                 iu = unit(e["i"], depth + 1)
                 return "char" if iu == "byte" else "BAD(char_at_byte indexed by %s)" % iu
             return "?"
+        if k == "Binary" and e.get("op") == "Add":
+            # an offset found inside a slice is relative to where that slice starts: `content[R]` searched, `R.start` added
+            for off, base in ((e["l"], e["r"]), (e["r"], e["l"])):
+                rb = _relative_base(fl, off)
+                if rb is not None:
+                    b = peel_clone(base)
+                    ok_base = b.get("k") == "Field" and b["name"] == "start" and peel_clone(b["e"]).get("hid") == rb and rb != "other"
+                    if not ok_base:
+                        return "BAD(an offset found in %s added to `%s`)" % (
+                            "another string than the slice of the source that starts there" if rb == "other" else "a slice of the source", pp(base))
         if k == "Binary" and e.get("op") in ("Add", "Sub"):
             l, r = unit(e["l"], depth + 1), unit(e["r"], depth + 1)
             if e["op"] == "Sub" and l == r == "char":
